@@ -1,6 +1,6 @@
 (* C16: resource-level restructuring conserves rows. *)
-From Coq Require Import List ZArith Bool.
-From DF Require Import Base.Str Base.ListX Base.Value Proc.RowOps Proc.Resources Proc.Resources_proofs Gen.Consts.
+From Coq Require Import List ZArith Bool Permutation.
+From DF Require Import Base.Str Base.Lits Base.ListX Base.Value Proc.RowOps Proc.Fields Proc.Resources Proc.Resources_proofs Proc.ConcatSchema_proofs Gen.Consts.
 Import ListNotations.
 Open Scope Z_scope.
 
@@ -42,6 +42,32 @@ Theorem C16_concat_row_has_target_fields : forall m targets r o,
   concat_row m targets r = Ok o -> rkeys o = targets.
 Proof. exact concat_row_keys. Qed.
 Print Assumptions C16_concat_row_has_target_fields.
+
+(* the target's schema, whatever the selected resources look like: exactly the requested target fields, each once ... *)
+Theorem C16_concat_schema_fields : forall m targets selected,
+  Permutation (map fst (fst (concat_schema m targets selected))) targets.
+Proof. exact concat_schema_fields. Qed.
+Print Assumptions C16_concat_schema_fields.
+
+(* ... each typed by a field of a selected resource that the mapping sends to it, or as a string when none does ... *)
+Theorem C16_concat_schema_types : forall m targets selected n ty,
+  In (n, ty) (fst (concat_schema m targets selected)) ->
+  (exists r f, In r selected /\ In f (r_fields r) /\ lookup_str m (fst f) = Some n /\ snd f = ty) \/ ty = s_string.
+Proof. exact concat_schema_types. Qed.
+Print Assumptions C16_concat_schema_types.
+
+(* ... and a primary key that names declared fields only (a key field renamed by the mapping appears under its new name) *)
+Theorem C16_concat_schema_pk_declared : forall m targets selected,
+  incl (snd (concat_schema m targets selected)) (map fst (fst (concat_schema m targets selected))).
+Proof. exact concat_schema_pk_declared. Qed.
+Print Assumptions C16_concat_schema_pk_declared.
+
+(* the mapping built from the field specification (when it is accepted) sends source names to requested targets only: the
+   premise of C16_concat_row_has_target_fields always holds *)
+Theorem C16_mapping_into_targets : forall fields m,
+  build_mapping fields [] = Ok m -> forall a b, lookup_str m a = Some b -> In b (map fst fields).
+Proof. exact build_mapping_into_targets. Qed.
+Print Assumptions C16_mapping_into_targets.
 
 (* duplicate: exact copy, placed right after the original or at the end; the rest unchanged *)
 Theorem C16_duplicate_copy_is_exact : forall w rows,
